@@ -1,10 +1,37 @@
-import Pendulum.Drv.Util
-/-! request handler for property C05 (stub until the property is built) -/
+import Pendulum.Drv.DTUtil
+import Pendulum.Model.Interval
+/-! C05 requests:
+* `c05iv <new|sub|abs|neg|subn|rsubn> <zrefX> <wallX> <foldX> <zrefY> <wallY> <foldY> <same> <absolute>`
+  (`new`: `Interval(x, y, absolute)` = `pendulum.interval` = `x.diff(y, absolute)`; `sub`: `x - y`; `abs`: `abs(x - y)`;
+  `neg`: `-(x - y)`; `subn`: `x - native(y)`; `rsubn`: `native(y) - x`)
+  → `ok <length µs> <in_seconds> <in_minutes> <in_hours>` / `err OverflowError`
+* `c05date <start day> <end day> <absolute>` → same reply -/
 namespace Pendulum.Drv.C05
-open Pendulum Pendulum.Drv
+open Pendulum Pendulum.Drv Pendulum.DTOps Pendulum.Interval
 
-def handle (_zs : Zones) (ws : List String) : Option String :=
+def replyLen : Except DTOps.Err Int → String
+  | .ok l => okInts [l, inSeconds l, inMinutes l, inHours l]
+  | .error e => "err " ++ e.name
+
+def handle (zs : Zones) (ws : List String) : Option String :=
   match ws with
+  | ["c05iv", path, zx, wx, fx, zy, wy, fy, same, ab] => do
+    let x ← parseV zs zx wx fx
+    let y ← parseV zs zy wy fy
+    let s := same == "1"
+    let a := ab == "1"
+    match path with
+    | "new" => some (replyLen (new x y s a))
+    | "sub" => some (replyLen (sub x y s))
+    | "abs" => some (replyLen (absSub x y s))
+    | "neg" => some (replyLen (negSub x y s))
+    | "subn" => some (replyLen (subNative x y s))
+    | "rsubn" => some (replyLen (rsubNative x y s))
+    | _ => none
+  | ["c05date", a, b, ab] => do
+    let a ← a.toInt?
+    let b ← b.toInt?
+    some (replyLen (.ok (dateNew a b (ab == "1"))))
   | _ => none
 
 end Pendulum.Drv.C05
